@@ -18,6 +18,9 @@ func main() {
 		workerMain(os.Args[2:])
 		return
 	}
+	if len(os.Args) >= 2 && os.Args[1] == "golden" {
+		os.Exit(runGolden(os.Args[2:]))
+	}
 	if len(os.Args) < 3 {
 		fmt.Fprintln(os.Stderr, "usage: ddpmc <ID> quick|thorough|replay <dir>")
 		os.Exit(2)
